@@ -26,6 +26,8 @@ ASSUMPTIONS = [
     'expected values and model inputs come from pristine copies taken when the arrays were created',
     'input scaling state: for every data set handed in the harness knows the ORIGINAL coordinates of each sample; in any pre-scaled state either the call raises or '
     'the result must be the one for the learning-time map of the ORIGINAL coordinates (model not consulted where acceptance depends on bitwise float equality)',
+    'estimated density: besides the classifier\'s own evaluation the oracle recomputes every per-class density as the combination interpolant of the learned surpluses '
+    '(get_result(), combi.scheme, plain nodal hats) and demands the arg-max of these values; numerical ties within 1e-9 relative are not judged',
     'exact ties of the maximal density are judged "any maximal class" by the oracle (the model takes the first, as numpy.argmax)',
     'one_vs_others only with labels 0..k-1 (the code indexes class counts by label); modified_basis=True is excluded (AssertionError "not yet implemented")',
 ]
@@ -127,7 +129,23 @@ def gen_points(rng, kind, m, X, lo, hi, dim):
     return P
 
 
-def gen_case(rng, tier, idx, big=False):
+def gen_case(rng, tier, idx, big=False, gate=None):
+    """gate = 'std2' / 'std3': standard learning with maximum_level 7 in 2 / 3 dimensions (component grids (4,4), (5,3), ... with >= 200 points: the
+    point-by-point interpolation branch); gate = 'dw': dimension-wise learning with max_evaluations 1500 (refined component grids >= 200 points)"""
+    if gate:
+        c = gen_case(rng, tier, idx)
+        while len(c['X'][0]) != (3 if gate == 'std3' else 2) or c['data_range'] or len(c['X']) < 24:
+            c = gen_case(rng, tier, idx)
+        c['cfg'].update(learner='dw' if gate == 'dw' else 'std', masslumping=True, lambd=0.0, levels=(1, 7), one_vs_others=False,
+                        max_evaluations=1500 if gate == 'dw' else c['cfg']['max_evaluations'], split_percentage=0.75, print_tests=False)
+        c['cfg']['dw'] = dict(c['cfg']['dw'], boundary=False, tolerance=0.0001)
+        pts = [list(p) for p in c['X']]
+        extra = [o for o in c['ops'] if o[0] in ('call', 'test') and o[3] in ('inside', 'partly', 'edge')][:2]
+        c['ops'] = [['call', pts[:12], [-1] * 12, 'inside'],
+                    ['test', pts[6:20], [l if l in c['labels'] else c['labels'][0] for l in c['y'][6:20]], 'inside'],
+                    ['call', 0, None, 'rewrap']] + ([['continue', 300]] if gate == 'dw' else []) + [['evaluate']] + extra
+        c['kind'] = 'gate-' + gate
+        return c
     dim = 2 if big else rng.choice([1, 2, 2, 2, 2, 3, 3])
     k = rng.choice([2, 2, 3, 3, 4])
     labels, label_axis = gen_labels(rng, k)
@@ -289,6 +307,55 @@ class _Args:
                 out.append((name, n, arr.shape == first.shape and bool(np.array_equal(arr, first))))
                 it[3] = arr.copy()
         return out
+
+
+def _hat1d(nodes, x, interior):
+    """nodal hat functions of a (possibly non-uniform) 1-D grid at the positions x: matrix (len(x), len(nodes)); interior grids have the
+    domain ends 0 and 1 as outer neighbours of their first / last node"""
+    import numpy as np
+    nodes = np.asarray(nodes, dtype=np.float64)
+    ext = np.concatenate(([0.0], nodes, [1.0])) if interior else nodes
+    off = 1 if interior else 0
+    H = np.zeros((len(x), len(nodes)))
+    for i in range(len(nodes)):
+        c = ext[i + off]
+        if i + off - 1 >= 0:
+            l = ext[i + off - 1]
+            m = (x >= l) & (x <= c) & (c > l)
+            H[m, i] = (x[m] - l) / (c - l)
+        if i + off + 1 < len(ext):
+            r = ext[i + off + 1]
+            m = (x >= c) & (x <= r) & (r > c)
+            H[m, i] = np.maximum(H[m, i], (r - x[m]) / (r - c))
+        H[x == c, i] = 1.0
+    return H
+
+
+def _ref_density(combi, de, pts):
+    """The ESTIMATED density of one class, recomputed independently of the library's interpolation code: the combination interpolant
+    sum_grids coefficient * sum_nodes surplus * prod_d hat_d(x_d) of the learned surpluses (DensityEstimation.get_result()) over the
+    combination scheme (combi.scheme), with plain nodal hat functions on the grid's own 1-D node coordinates.  None = not available."""
+    import numpy as np
+    pts = np.asarray(pts, dtype=np.float64)
+    total = np.zeros(len(pts))
+    res = de.get_result()
+    for g in combi.scheme:
+        lv = tuple(int(l) for l in g.levelvector)
+        al = np.asarray(res[lv], dtype=np.float64).reshape(-1)
+        if hasattr(combi, 'get_point_coord_for_each_dim'):
+            nodes = [np.asarray(s_, dtype=np.float64) for s_ in combi.get_point_coord_for_each_dim(lv)[0]]
+        else:
+            nodes = [np.arange(1, 2 ** l) / 2.0 ** l for l in lv]
+        if int(np.prod([len(s_) for s_ in nodes])) != len(al):
+            nodes = [s_[1:-1] for s_ in nodes]
+            if int(np.prod([len(s_) for s_ in nodes])) != len(al):
+                return None
+        H = [_hat1d(nodes[d], pts[:, d], not (len(nodes[d]) >= 2 and abs(nodes[d][0]) < 1e-15 and abs(nodes[d][-1] - 1.0) < 1e-15)) for d in range(len(lv))]
+        val = H[0] @ al.reshape(len(nodes[0]), -1)                      # the first dimension varies slowest
+        for d in range(1, len(lv)):
+            val = np.sum(val.reshape(len(pts), len(nodes[d]), -1) * H[d][:, :, None], axis=1)
+        total += float(g.coefficient) * val.reshape(len(pts))
+    return total
 
 
 def _dens(classificators, pts):
@@ -531,6 +598,35 @@ def impl_run(case):
                 ent['viol'].append(dict(kind=kind, sig=dict(contiguous_labels=contiguous, where=what),
                                         why='%s: sample %d at %r got class %r; densities %r, classificators trained on the classes %r' % (what, i, pts[i], c, row, lab_of)))
                 break
+        # the class must be the arg-max of the ESTIMATED densities = the combination interpolants of the learned surpluses, recomputed here
+        # without the library's interpolation code (numerical ties within 1e-9 relative are not judged)
+        try:
+            cl_, des_ = clf.get_density_estimation_results()
+            ref = [_ref_density(c_, d_, pts) for c_, d_ in zip(cl_, des_)] if pts else []
+        except CaseTimeout:
+            raise
+        except Exception:
+            ref = [None]
+        if pts and all(r_ is not None for r_ in ref):
+            out['indep'] = out.get('indep', 0) + len(pts)
+            out['maxgrid'] = max([out.get('maxgrid', 0)] + [len(v_) for d_ in des_ for v_ in d_.get_result().values()])
+            R = np.array(ref).T                                         # one row per sample, one column per classificator
+            if np.any(np.abs(R - np.array(d)) > 1e-7 * (1.0 + np.abs(R))):
+                out['dens_mismatch'] = out.get('dens_mismatch', 0) + 1
+            for i, c in enumerate(classes):
+                order = np.sort(R[i])
+                if len(order) >= 2 and order[-1] - order[-2] <= 1e-9 * (1.0 + abs(order[-1])):
+                    out['indep_ties'] = out.get('indep_ties', 0) + 1
+                    continue
+                want = lab_of[int(np.argmax(R[i]))]
+                if c != want:
+                    ent['viol'].append(dict(kind='class-not-argmax-of-estimated-density', sig=dict(where=what),
+                                            why='%s: sample %d at %r got class %r; the combination interpolants of the learned surpluses give the densities %r there '
+                                                '(arg-max class %r), the classifier itself evaluated %r; classificators trained on the classes %r' % (
+                                                    what, i, pts[i], c, [float(v) for v in R[i]], want, d[i], lab_of)))
+                    break
+        elif pts:
+            out['indep_unavailable'] = out.get('indep_unavailable', 0) + 1
         return d
 
     ent0 = dict(viol=[])
@@ -1092,6 +1188,7 @@ def run(chk):
     chk.count('getter-tamper-histories=' + ('on' if tamper_enabled() else 'off (finding %s not registered)' % TAMPER_FINDING))
     chk.count('translated-prescaled-histories=' + ('on' if translated_enabled() else 'off (finding %s not registered)' % OFFSET_FINDING))
     cases = [dict(c) for c in CORPUS] + ([dict(TAMPER_CASE)] if tamper_enabled() else []) + ([dict(TRANSLATED_CASE)] if translated_enabled() else []) + \
+            [gen_case(chk.rng, chk.tier, i, gate=g) for i, g in enumerate(['std2', 'std3', 'dw'] * chk.n(1, 4))] + \
             [gen_case(chk.rng, chk.tier, i, big=True) for i in range(nbig)] + [gen_case(chk.rng, chk.tier, i) for i in range(n)]
     impl = run_impl(impl_run, cases, limit=600)
     impl, leaks = confirm_in_fresh_processes(chk, cases, impl)
@@ -1142,6 +1239,16 @@ def judge(chk, cases, impl, variant):
             chk.violation('corr:C19/run', 'harness-or-impl-failure', {'status': st}, dict(base, ops=c['ops']), dict(impl=str(r)[:600]), failing_input=False)
             continue
         cfg = c['cfg']
+        if r.get('indep'):
+            chk.count('independent-density:samples-judged', r['indep'])
+            chk.count('independent-density:cases')
+            chk.count('largest-component-grid=%s' % ('>=200' if r.get('maxgrid', 0) >= 200 else '64-199' if r.get('maxgrid', 0) >= 64 else '<64'))
+        if r.get('indep_ties'):
+            chk.count('independent-density:ties-not-judged', r['indep_ties'])
+        if r.get('indep_unavailable'):
+            chk.count('independent-density:unavailable', r['indep_unavailable'])
+        if r.get('dens_mismatch'):
+            chk.count('independent-density:library-interpolation-differs(no class change needed)', r['dens_mismatch'])
         chk.count('dim=%d' % r['dim']); chk.count('learner=%s' % cfg['learner']); chk.count('classes=%d' % len(c['labels']))
         chk.count('labels=%s' % c.get('label_axis', 'corpus'))
         chk.count('split=%r/%s' % (cfg['split_percentage'], 'even' if cfg['split_evenly'] else 'uneven'))
